@@ -881,4 +881,162 @@ def check_C11(run):
     settle_break(run)
 
 
-CHECKS = {"C11": check_C11, "C01": check_C01, "C04": check_C04, "C06": check_C06, "C07": check_C07, "C12": check_C12, "C13": check_C13, "C14": check_C14, "C10": check_C10, "C16": check_C16, "C17": check_C17, "C18": check_C18, "C09": check_C09, "C05": check_C05, "C03": check_C03, "C02": check_C02, "C19": check_C19}
+def _compose_model(exe, pairs, profile):
+    """extracted compose_check on (A, B) pairs -> list of 'holds' | 'fails' | 'notclosed'"""
+    import subprocess, concurrent.futures as cf
+    from common import NCPU
+    lines = [(hexline(a) or "-") + " " + (hexline(b) or "-") for a, b in pairs]
+    if not lines:
+        return []
+    k = max(1, min(NCPU, len(lines) // 100 + 1))
+    size = (len(lines) + k - 1) // k
+    chunks = [lines[i:i + size] for i in range(0, len(lines), size)]
+
+    def go(ch):
+        p_ = subprocess.run([exe, "compose", profile], input=("\n".join(ch) + "\n").encode(), capture_output=True, timeout=1800)
+        out = [ln.split()[2] for ln in p_.stdout.decode().split("\n") if ln.startswith("CASE ")]
+        return out + ["crash"] * (len(ch) - len(out))
+    res = []
+    with cf.ThreadPoolExecutor(max_workers=k) as ex:
+        for r in ex.map(go, chunks):
+            res.extend(r)
+    return res
+
+
+def check_C15(run):
+    import grammar
+    rng = Rng(run.seed).fork("C15")
+    coq_part(run, "C15")
+    try:
+        exe = coqbuild.build_model()
+    except CoqFailure as e:
+        exe = None
+        run.pending_break = ("model-build", e.detail[:600])
+    T = impl.tables("debug")
+    n = tier_n(run, 2500, 50000)
+    # --- candidate prefixes: grammar programs, arbitrary strings (most useful when they end in ';'), corpus
+    cands = [grammar.render(p)[0] for p in grammar_programs(run, rng, n // 2, 3)]
+    raw = gen.fragments(rng.fork("fa"), n, 6) + gen.open_code(rng.fork("oa"), n // 2, 6) + gen.regression_corpus() + gen.unicode_stress(rng.fork("ua"), n // 6)
+    r2 = rng.fork("semi")
+    for s_ in raw:
+        cands.append(s_)
+        cands.append(s_ + r2.choice([";", ";", " ;", ";\n", "*/;", "');", "\");", ");", "%mend;", "%end;", ";;;;"]))
+    cands += ["", ";", ";;", "* c;", "%* c;", "/*c*/;", "a;", "datalines;\n1\n;", "cards4;\nx\n;;;;", "%let a=1;", "%macro m; %mend;", "%m(1) * c;", "x='a;';", "%put a;", "%if 1 %then a;", "%do; %end;"]
+    cands = list(dict.fromkeys(cands))
+    ca = {v: impl.run_lex(v, cands, mode="lex") for v in ("debug", "release")}
+    closed_idx = [i for i, c in enumerate(ca["release"]) if c.src is not None and O.closed_prefix(O.Ctx(c, T))]
+    run.cov["prefix_candidates"] = len(cands)
+    run.cov["closed_prefixes"] = len(closed_idx)
+    # --- continuations
+    Bs = list(gen.FR) + gen.fragments(rng.fork("fb"), n, 5) + gen.open_code(rng.fork("ob"), n // 3, 5) + gen.unicode_stress(rng.fork("ub"), n // 8)
+    Bs += [grammar.render(p)[0] for p in grammar_programs(run, rng.fork("gb"), n // 4, 2)]
+    Bs += ["datalines;\n1\n;", "cards;", "* c;", "*", "%then", "%let a=1;", "%else x", "%lbl: a", "=1", ")", "%mend;", "%end;", "1", "x", ":", "%to 1", "eq", "'", "\"", "%*c;", "/*", "%str(", "%m(", "&a", "%", "&"]
+    Bs = [b for b in dict.fromkeys(Bs) if not b.startswith("\ufeff")]
+    rp = rng.fork("pairs")
+    pairs = []
+    per_a = tier_n(run, 3, 12)
+    for i in closed_idx:
+        for _ in range(per_a):
+            pairs.append((i, Bs[rp.below(len(Bs))]))
+    # every trigger fragment after a sample of prefixes of each kind
+    for i in closed_idx[:: max(1, len(closed_idx) // tier_n(run, 40, 400))]:
+        for b in gen.FR:
+            if not b.startswith("\ufeff"):
+                pairs.append((i, b))
+    pairs = list(dict.fromkeys(pairs))
+    bset = list(dict.fromkeys(b for _, b in pairs))
+    bidx = {b: k for k, b in enumerate(bset)}
+    abs_ = [cands[i] + b for i, b in pairs]
+    run.cov["pairs"] = len(pairs)
+    kinds = collections.Counter()
+    for i in closed_idx:
+        c = ca["release"][i]
+        kinds[T.tt_name.get(c.toks[-2].type, "?") if len(c.toks) >= 2 else "?"] += 1
+    run.cov["closing_token_kinds"] = dict(kinds)
+    impl_fail = {"debug": set(), "release": set()}
+    for variant in ("debug", "release"):
+        cb = impl.run_lex(variant, bset, mode="lex")
+        cab = impl.run_lex(variant, abs_, mode="lex")
+        nbad = 0
+        for (i, b), c_ab in zip(pairs, cab):
+            a_case = ca[variant][i]
+            b_case = cb[bidx[b]]
+            if a_case.outcome != "ok" or not O.closed_prefix(O.Ctx(a_case, T)):
+                continue
+            if b_case.outcome != "ok" or c_ab.outcome != "ok":
+                # panics/hangs belong to C01 unless only the composition fails
+                if b_case.outcome == "ok" and c_ab.outcome != "ok":
+                    f = [f"B alone lexes, A followed by B does not: {c_ab.outline[:100]}"]
+                else:
+                    continue
+            else:
+                f = O.glue_check(a_case, b_case, c_ab, T)
+            run._distinct.update(bigram_keys(c_ab))
+            if f:
+                impl_fail[variant].add((i, b))
+                A0 = cands[i]
+                kf = run.known_class(A0 + b, f"closed prefix A={A0!r} followed by B={b!r}: {f[0]}")
+                if kf:
+                    run.known_hits[kf["id"]] = kf["text"]
+                    run.cov["known_finding_instances"] = run.cov.get("known_finding_instances", 0) + 1
+                    continue
+                nbad += 1
+                if nbad <= 4:
+
+                    def fails(a, b_, _v=variant):
+                        x = impl.run_lex(_v, [a, b_, a + b_], mode="lex", jobs=1)
+                        if len(x) < 3 or x[0].outcome != "ok" or x[1].outcome != "ok" or not O.closed_prefix(O.Ctx(x[0], T)):
+                            return False
+                        if x[2].outcome != "ok":
+                            return True
+                        return bool(O.glue_check(x[0], x[1], x[2], T))
+                    b_small = shrink_input(b, lambda y: fails(A0, y))
+                    a_small = shrink_input(A0, lambda y: fails(y, b_small))
+                    x = impl.run_lex(variant, [a_small, b_small, a_small + b_small], mode="lex", jobs=1)
+                    msg = f[0]
+                    try:
+                        m2 = O.glue_check(x[0], x[1], x[2], T)
+                        msg = m2[0] if m2 else msg
+                    except Exception:
+                        pass
+                    run.violation("oracle", f"[{variant}] closed prefix A={a_small!r} followed by B={b_small!r}: {msg}", src=a_small + b_small,
+                                  extra={"A": a_small, "B": b_small, "original_A": A0[:300], "original_B": b[:300]})
+        run.count("pairs:" + variant, len(pairs))
+        run.cov["streams"]["pairs:" + variant]["failures"] = nbad
+    # --- the Coq statement (Spec/Glue.compose_check) evaluated by the extracted model on the same pairs
+    if exe is not None:
+        sub0 = pairs[:: max(1, len(pairs) // tier_n(run, 6000, 60000))]
+        for profile in ("debug", "release"):
+            sub = list(dict.fromkeys(sub0 + sorted(impl_fail[profile])))
+            res = _compose_model(exe, [(cands[i], b) for i, b in sub], profile)
+            cnt = collections.Counter(res)
+            run.cov.setdefault("model_compose_check", {})[profile] = dict(cnt)
+            run.cov["traces_validated_against_impl"] = run.cov.get("traces_validated_against_impl", 0) + cnt.get("holds", 0)
+            for (i, b), r_ in zip(sub, res):
+                if (r_ == "holds") == ((i, b) not in impl_fail[profile]) and r_ in ("holds", "fails"):
+                    continue
+                if ca[profile][i].outcome != "ok":
+                    continue
+                if r_ == "holds":
+                    r_ = "holds-but-impl-fails"
+                if not getattr(run, "pending_break", None) and not run.violations:
+                    what = {"fails": "the model's run on A++B is not the glue of its runs on A and B",
+                            "notclosed": "the Coq definition of a closed prefix rejects a prefix the harness accepts",
+                            "holds-but-impl-fails": "the model composes where the implementation does not",
+                            "crash": "the extracted model crashed"}.get(r_, r_)
+                    run.pending_break = ("correspondence", f"[{profile}] compose_check: {what}: A={cands[i][:80]!r} B={b[:80]!r}")
+        # whole-lexer correspondence on the compositions
+        correspond(run, exe, abs_[:: max(1, len(abs_) // tier_n(run, 8000, 100000))], ("debug", "release"), T, None, stream="compositions")
+    run.sample({"A": cands[closed_idx[0]] if closed_idx else "", "B": Bs[0]})
+    if pairs:
+        run.sample({"A": cands[pairs[len(pairs) // 2][0]][:200], "B": pairs[len(pairs) // 2][1][:200]})
+    run.cov["rule"] = ("prefix candidates: rendered grammar programs, fragment/open-code/Unicode strings (also with a closing ';' variant appended), corpus; kept when the "
+                       "implementation's end-of-input snapshot is the initial configuration and the last token is a consumed ';' or a closed statement comment (DESIGN 6.4); "
+                       "continuations: every trigger fragment, random fragment strings, open code, Unicode stress, grammar programs, look-behind-sensitive starts; "
+                       "lex(A), lex(B), lex(A+B) by the implementation (debug, release), compared through the glue oracle; the same pairs through the extracted Coq compose_check")
+    run.assumptions += ["proved: the composition statement for the production ';'* (every closed prefix of empty statements, every continuation of empty statements, release profile) and the boundary step from any open-code state",
+                        "the statement for all closed prefixes and continuations is evaluated (implementation through the harness oracle, model through the extracted Coq definition), not proved (partial)"]
+    settle_break(run)
+
+
+CHECKS = {"C15": check_C15, "C11": check_C11, "C01": check_C01, "C04": check_C04, "C06": check_C06, "C07": check_C07, "C12": check_C12, "C13": check_C13, "C14": check_C14, "C10": check_C10, "C16": check_C16, "C17": check_C17, "C18": check_C18, "C09": check_C09, "C05": check_C05, "C03": check_C03, "C02": check_C02, "C19": check_C19}
